@@ -292,6 +292,8 @@ def edit_cases(draw):
         cands += [-(t - 4e-9) for t in ts if t > 1e-6] + [-(t + 4e-9) for t in ts]
         # a shift so small that what leaves the span leaves it by less than 1e-9 of its length: it still leaves it
         cands += [4e-9, max(spec["maxT"], 1.0) * 3e-10] * 2 + ([-spec["minT"] * 3e-10] if spec["minT"] > 0 else [])
+        # an entry lands exactly on the old end of the span (nothing leaves it)
+        cands += [spec["maxT"] - t for t in ts if 0 < spec["maxT"] - t] * 2
     off = draw(st.one_of(st.sampled_from(cands), gen.time_of(style), gen.time_of(style).map(lambda t: -t)))
     return {"tier": spec, "offset": off, "mode": draw(st.sampled_from(["silence", "warning", "error"]))}
 
